@@ -264,6 +264,7 @@ def run_one(exe, args, timeout, env=None, wrapper=None):
         e.update(env)
     frm = None
     restarts = 0
+    hangs = 0
     while True:
         a = list(args)
         if frm is not None:
@@ -295,14 +296,28 @@ def run_one(exe, args, timeout, env=None, wrapper=None):
             if sm:
                 tail += " | " + sm.group(1)[:200]
             first[4] = tail
+            if first[1] == "hang":
+                hangs += 1
+            if first[1] == "hang" and "--only" not in a and first[0] >= 0 and hangs == 1:
+                # a watchdog fired: re-run that one case alone before believing it (loaded machine)
+                try:
+                    p2 = subprocess.run((wrapper or []) + [exe] + list(args) + ["--only", str(first[0])], stdout=subprocess.PIPE,
+                                        stderr=subprocess.PIPE, timeout=timeout, env=e)
+                    if b"kind=hang" not in p2.stdout:
+                        del res.crashes[ncr]
+                        hangs -= 1
+                        res.stats["watchdog_fired_but_case_completed_on_rerun"] = res.stats.get("watchdog_fired_but_case_completed_on_rerun", 0) + 1
+                except subprocess.TimeoutExpired:
+                    pass
             restarts += 1
-            if restarts > 400 or "--only" in a:
+            if restarts > 400 or "--only" in a or hangs >= 3:
+                # (three confirmed hangs: the shard is abandoned, its violations are already recorded)
                 return res
             frm = first[0] + 1
             continue
-        if rc != 0 and res.done is None and rc not in (-9, 3):
+        if rc != 0 and res.done is None and rc not in (-9, 5):
             # died without a CRASH record (e.g. MSan exit code).  SIGKILL cannot be raised by the code under test (the
-            # kernel's out-of-memory killer or an operator sent it) and exit code 3 is the harness reporting that it
+            # kernel's out-of-memory killer or an operator sent it) and exit code 5 is the harness reporting that it
             # could not get memory for its own buffers: both leave the shard without DONE, which is inconclusive.
             res.crashes.append([-1, "exit%d" % rc, "?", "", err[-400:].replace("\n", " | ")])
         return res
